@@ -10,6 +10,12 @@
 //! position is at or past the end (every reversed empty sound: the start frame saturates at 0) are
 //! generated regularly — they used to hang / underflow and are ordinary inputs since the repairs; a
 //! fault on any of them is reported by `fault_oracles` and is not a known finding any more.
+//! One case in ten is EXTREME: start positions, seek targets and loop bounds at usize::MAX, 2^63, just past
+//! 2^53, 1e300 seconds (saturating) — the wrap into the loop region is modular arithmetic since the repair
+//! (it was a loop of `position / loop length` iterations: the watchdog below catches a regression) and
+//! `position += 1` saturates.  The model keeps positions in unbounded naturals: the twin prints
+//! `min position usize::MAX`; a start AT usize::MAX is only combined with no loop region (with one, kira's
+//! saturated increment and the model's `+ 1` differ by one frame of loop phase).
 use crate::runner::{run_cases, Out};
 use crate::util::*;
 use kira::sound::{EndPosition, PlaybackPosition, Region};
@@ -141,14 +147,14 @@ fn exec(case: &[String], out: &mut Out) {
 							}
 						} else {
 							let want = match lr {
-								Some((ls, le)) => wrap_down(p0 + 1, ls, le),
-								None => p0 + 1,
+								Some((ls, le)) => wrap_down(p0.saturating_add(1), ls, le),
+								None => p0.saturating_add(1),
 							};
 							if p1 != want || playing1 != (want < n) {
 								out.oracle_fail("transport_inc_wrong", l);
 							}
 							if let Some((ls, le)) = lr {
-								if p0 + 1 == le && p1 != ls {
+								if p0.saturating_add(1) == le && p1 != ls {
 									out.oracle_fail("transport_wrap_forward", l);
 								}
 								if !playing1 {
@@ -167,9 +173,10 @@ fn exec(case: &[String], out: &mut Out) {
 							}
 						} else if let Some((ls, le)) = lr {
 							// smallest p0 + k (le - ls) > ls, minus one
-							let d = le - ls;
-							let q = if p0 > ls { p0 } else { p0 + ((ls + 1 - p0) + d - 1) / d * d };
-							if p1 != q - 1 || !playing1 {
+							// (u128: the loop end may be usize::MAX)
+							let (d, p, l) = ((le - ls) as u128, p0 as u128, ls as u128);
+							let q = if p > l { p } else { p + ((l + 1 - p) + d - 1) / d * d };
+							if p1 as u128 != q - 1 || !playing1 {
 								out.oracle_fail("transport_dec_wrong", l);
 							}
 							if p0 == ls && p1 != le - 1 {
@@ -190,13 +197,13 @@ fn exec(case: &[String], out: &mut Out) {
 						}
 						if let Some((ls, le)) = lr {
 							let target = pu(tok[1]) as usize;
-							let d = le - ls;
+							let d = (le - ls) as u128;
 							let want = if target > p0 {
 								wrap_down(target, ls, le)
 							} else if target >= ls {
 								target
 							} else {
-								target + (ls - target + d - 1) / d * d
+								(target as u128 + ((ls - target) as u128 + d - 1) / d * d) as usize
 							};
 							if p1 != want {
 								out.oracle_fail("transport_seek_wrong", l);
@@ -298,6 +305,76 @@ pub fn run(ops: &[String]) -> Vec<String> {
 	let trace = run_cases(ops, Some(Duration::from_millis(1500)), exec);
 	let extra = fault_oracles(ops, &trace, "transport");
 	insert_after_cases(trace, extra)
+}
+
+const XPOS: &[u64] = &[u64::MAX, u64::MAX - 1, u64::MAX - 1000, 1 << 63, (1 << 63) + 1, (1 << 53) + 1, 1 << 32, 1_000_000_000_000];
+
+/// an extreme position: samples, or seconds that saturate / are far past every sound
+fn xpos(rng: &mut Rng) -> String {
+	if rng.chance(1, 3) {
+		format!("s={}", o64(rng.pick(&[1e300, f64::MAX, 1.8446744073709552e19, 9007199254740994.0, 1e15])))
+	} else {
+		format!("n={}", rng.pick(XPOS))
+	}
+}
+
+/// EXTREME case: positions near usize::MAX against ordinary (and extreme) loop regions, both directions
+fn gen_extreme_case(rng: &mut Rng, out: &mut Vec<String>, stats: &mut Stats, n: u64) {
+	let sr = rng.pick(&[1u64, 8, 44100, 48000]);
+	let reverse = rng.chance(1, 3);
+	let mut region = "none".to_string();
+	if n >= 1 && rng.chance(3, 4) {
+		let ls = rng.below(n);
+		let le = ls + 1 + rng.below(n - ls);
+		region = match rng.below(5) {
+			0 => format!("{}~{}", fmt_pos(rng, ls, sr), xpos(rng)), // a loop end far past the sound
+			1 => format!("{}~{}", xpos(rng), xpos(rng)),            // usually empty / inverted: dropped
+			_ => fmt_region(rng, ls, le, n, sr),
+		};
+	}
+	let mut start = match rng.below(3) {
+		0 => rng.below(n + 1),
+		_ => rng.pick(XPOS),
+	};
+	// forwards, a start at usize::MAX is only combined with no loop region, and nothing starts so close to it
+	// that the walk below crosses it (kira saturates there, the model counts on)
+	if !reverse && start > u64::MAX - 1000 {
+		if start == u64::MAX && region == "none" {
+			stats.hit("extreme_start_usize_max");
+		} else {
+			start = u64::MAX - 1000;
+		}
+	}
+	stats.hit("extreme_case");
+	out.push(format!("new {} {} {} {} {}", start, region, reverse as u8, sr, n));
+	let at_max = !reverse && start == u64::MAX;
+	let mut forward = !reverse;
+	for _ in 0..rng.range(3, 24) {
+		if rng.chance(1, 6) {
+			forward = !forward;
+		}
+		let line = match rng.below(10) {
+			0..=2 => format!("seek {} {}", if rng.chance(2, 3) { rng.pick(XPOS) } else { rng.below(n + 2) }, n),
+			3 if n >= 1 && !at_max => {
+				let ls = rng.below(n);
+				let le = ls + 1 + rng.below(n - ls);
+				if rng.chance(1, 3) {
+					format!("loop {}~{} {} {}", fmt_pos(rng, ls, sr), xpos(rng), sr, n)
+				} else {
+					format!("loop {} {} {}", fmt_region(rng, ls, le, n, sr), sr, n)
+				}
+			}
+			_ => {
+				if forward {
+					format!("inc {}", n)
+				} else {
+					"dec".to_string()
+				}
+			}
+		};
+		stats.hit(line.split(' ').next().unwrap());
+		out.push(line);
+	}
 }
 
 fn gen_case(rng: &mut Rng, out: &mut Vec<String>, stats: &mut Stats, n: u64, hang_budget: &mut u32) {
@@ -439,7 +516,11 @@ pub fn gen(rng: &mut Rng, n: usize, thorough: bool, stats: &mut Stats) -> Vec<St
 			4 => 1000 + rng.below(100_000),
 			_ => rng.below(40),
 		};
-		gen_case(rng, &mut out, stats, len, &mut hang_budget);
+		if rng.chance(1, 10) {
+			gen_extreme_case(rng, &mut out, stats, len.min(5000));
+		} else {
+			gen_case(rng, &mut out, stats, len, &mut hang_budget);
+		}
 	}
 	out
 }
